@@ -253,7 +253,8 @@ pub fn gen_c09(rng: &mut Rng, d: &mut Dist, _idx: u64) -> Vec<String> {
     out.push(format!("OP client_new {}", cl.bootstrap()));
     // settings
     if rng.chance(2, 3) {
-        let l = *rng.pick(&[0usize, 1, 5, 5, 5, 32767, 32768]);
+        // 65536 + k and 131072 + k wrap to the small length k when narrowed to 16 bits
+        let l = *rng.pick(&[0usize, 1, 5, 5, 5, 5, 5, 32767, 32768, 65535, 65536, 65541, 70000, 131081]);
         bump(d, &format!("client-id-len-{}", l));
         out.push(format!("OP c set client_id {}", h(&name_of_len(rng, l))));
     }
@@ -294,6 +295,12 @@ pub fn gen_c09(rng: &mut Rng, d: &mut Dist, _idx: u64) -> Vec<String> {
                 4 => {
                     bump(d, "name-40000");
                     name_of_len(rng, 40000)
+                }
+                5 => {
+                    // lengths that wrap to a small non-negative number when narrowed to 16 bits
+                    let l = *rng.pick(&[65536usize, 65541, 70000, 131081, 98303, 98304]);
+                    bump(d, "name-beyond-65535");
+                    name_of_len(rng, l)
                 }
                 _ => rng.pick(&names).0.clone(),
             }
@@ -347,7 +354,7 @@ pub fn gen_c09(rng: &mut Rng, d: &mut Dist, _idx: u64) -> Vec<String> {
             6 => {
                 bump(d, "op-commit_offsets");
                 let n = rng.below(5);
-                let g = if rng.chance(1, 20) { name_of_len(rng, 32768) } else { "grp".to_string() };
+                let g = if rng.chance(1, 20) { let l = *rng.pick(&[32768usize, 65543, 70000]); name_of_len(rng, l) } else { "grp".to_string() };
                 let mut line = format!("OP c commit_offsets {}", h(&g));
                 for _ in 0..n {
                     let t = pick_topic(rng, d);
@@ -1307,7 +1314,7 @@ pub fn gen_c19(rng: &mut Rng, d: &mut Dist, _idx: u64) -> Vec<String> {
 /// partitions, acks in {0,1,-1}, all codecs, 1-3 brokers; via the client and via the producer.
 pub fn gen_c05(rng: &mut Rng, d: &mut Dist, _idx: u64) -> Vec<String> {
     let leaderless = rng.chance(1, 4);
-    let cl = Cluster::random(rng, 4, leaderless);
+    let mut cl = Cluster::random(rng, 4, leaderless);
     let mut out = cl.setup_lines();
     bump(d, &format!("brokers-{}", cl.brokers.len()));
     if rng.chance(1, 3) {
@@ -1317,7 +1324,63 @@ pub fn gen_c05(rng: &mut Rng, d: &mut Dist, _idx: u64) -> Vec<String> {
     out.push("OP c load_metadata_all".into());
     let mut uniq = 0u32;
     let ncalls = 1 + rng.below(3);
-    for _ in 0..ncalls {
+    for call_no in 0..ncalls {
+        // the cluster changes between calls - a topic loses or gains partitions, a leader moves - and the client loads the
+        // topic again on its own (no reset), loads everything again, or carries on with what it has
+        if call_no > 0 && rng.chance(1, 2) {
+            let ti = rng.below(cl.topics.len() as u64) as usize;
+            let old = cl.topics[ti].leaders.len();
+            let first = cl.brokers[0].0;
+            match rng.below(3) {
+                0 if old > 1 => {
+                    let n = 1 + rng.below(old as u64 - 1) as usize;
+                    bump(d, "cluster-topic-shrinks");
+                    cl.topics[ti].leaders.truncate(n);
+                    out.push(format!("TOPIC {} {}", h(&cl.topics[ti].name), n));
+                }
+                1 => {
+                    let n = old + 1 + rng.below(2) as usize;
+                    bump(d, "cluster-topic-grows");
+                    cl.topics[ti].leaders.resize(n, first);
+                    out.push(format!("TOPIC {} {}", h(&cl.topics[ti].name), n));
+                    for p in old..n {
+                        out.push(format!("LEADER {} {} {}", h(&cl.topics[ti].name), p, first));
+                    }
+                }
+                _ => {
+                    let p = rng.below(old as u64) as usize;
+                    let nl = rng.pick(&cl.brokers).0;
+                    bump(d, "cluster-leader-moves");
+                    cl.topics[ti].leaders[p] = nl;
+                    out.push(format!("LEADER {} {} {}", h(&cl.topics[ti].name), p, nl));
+                }
+            }
+            match rng.below(3) {
+                0 => {
+                    bump(d, "reload-topic-alone");
+                    out.push(format!("OP c load_metadata {}", h(&cl.topics[ti].name)));
+                }
+                1 => {
+                    bump(d, "reload-all");
+                    out.push("OP c load_metadata_all".into());
+                }
+                _ => bump(d, "no-reload"),
+            }
+            // records for every partition the topic had before or has now
+            let now = cl.topics[ti].leaders.len();
+            let mut line = format!("OP c produce {} 5 0", rng.pick(&[0i64, 1]));
+            for p in 0..old.max(now) {
+                if rng.chance(2, 3) {
+                    uniq += 1;
+                    line.push_str(&format!(" {} {} ~ {}", h(&cl.topics[ti].name), p, hex(&uniq.to_be_bytes())));
+                }
+            }
+            if line.ends_with(" 5 0") {
+                uniq += 1;
+                line.push_str(&format!(" {} {} ~ {}", h(&cl.topics[ti].name), old.max(now) - 1, hex(&uniq.to_be_bytes())));
+            }
+            out.push(line);
+        }
         let comp = rng.below(3);
         out.push(format!("OP c set compression {}", comp));
         bump(d, &format!("codec-{}", comp));
@@ -1596,7 +1659,30 @@ pub fn real_wrapper(rng: &mut Rng, codec: u8, last_offset: i64, inner: &[u8]) ->
 /// C02: logs over {plain, gzip, snappy, nested} batches (Lean stored-block / literal encoders *and* real flate2 / snap
 /// output), offset gaps, null / empty / binary / large payloads, several topics x partitions; fetches at offsets
 /// below / inside / at the end of batches with sizes that cut entries at arbitrary byte positions.
-pub fn gen_c02(rng: &mut Rng, d: &mut Dist, _idx: u64) -> Vec<String> {
+pub fn gen_c02(rng: &mut Rng, d: &mut Dist, idx: u64) -> Vec<String> {
+    // "for any number of topics/partitions per response": one response with more partitions than any internal
+    // pre-allocation cap (4096), every one carrying a message, a second topic behind it
+    if idx == 7 {
+        let n = *rng.pick(&[4097usize, 4100, 5000]);
+        bump(d, &format!("partitions-in-one-response-{}", n));
+        let mut out = vec![format!("BROKER 1 {} 9092", h("b1")), format!("TOPIC {} {}", h("big"), n), format!("TOPIC {} 1", h("z"))];
+        out.push(format!("LEADER {} 0 1", h("z")));
+        out.push(format!("APPEND {} 0 plain 0 ~ 7a", h("z")));
+        for p in 0..n {
+            out.push(format!("LEADER {} {} 1", h("big"), p));
+            out.push(format!("APPEND {} {} plain 0 ~ {:04x}", h("big"), p, p));
+        }
+        out.push("COORD 1".into());
+        out.push(format!("OP client_new {}", h("b1:9092")));
+        out.push("OP c load_metadata_all".into());
+        let mut line = String::from("OP c fetch_messages");
+        for p in 0..n {
+            line.push_str(&format!(" {} {} 0 -1", h("big"), p));
+        }
+        line.push_str(&format!(" {} 0 0 -1", h("z")));
+        out.push(line);
+        return out;
+    }
     let cl = Cluster::random(rng, 3, false);
     let mut out = cl.setup_lines();
     let mut sizes: Vec<(String, usize, i64, usize)> = Vec::new(); // topic, partition, end offset, approx bytes
